@@ -4,6 +4,8 @@ import M3d.Lemmas.SmartSqueezeSlope
 import M3d.Lemmas.Transform2
 import M3d.Lemmas.TransformNest
 import M3d.Lemmas.TransformNest2
+import M3d.Lemmas.TransformHist
+import M3d.Lemmas.TransformHist2
 import Mathlib.Algebra.Order.Field.Rat
 /-!
 # C05 — transforms invert, and transformed objects are images of the original
@@ -655,6 +657,198 @@ theorem smart_squeeze_rigid (ratio : K) (ranges : List (K × K)) (lo hi : K) (n 
 
 /-- non-vacuity: bounds `[0, 4]`, unsqueezable `[1, 2)`: the loop squeezes `[0,1]` and `[2,4]`. -/
 example : squeezeLoop [((1 : ℚ), 2)] 4 4 0 [] = [(0, 1), (2, 4)] := by decide +kernel
+
+
+/-! ## Histories of one transform object: `Inverse()` is the inverse of the object **as it is now**
+
+The transform types are mutable (`Offset`, `Scale`, the `AxisSqueeze` fields and `Matrix3Transform.Matrix` are
+exported; `Matrix` is a pointer whose target has the in-place mutators `Scale` / `InvertInPlace`; a
+`JoinedTransform` is a slice).  `M3d/Model/TransformHist.lean` has two semantics of a history of one object:
+the **heap semantics** (`Hist.Cell`, `Hist.readIn`, `Hist.goInverse`, `Hist.HeapStep.run`: structs, matrices and
+slices are heap cells, `Matrix` is an address, `Inverse()` allocates exactly what the Go methods allocate) and the
+**value semantics** (`HStep.run`: every object has a current value, `inv i` appends `Xf.inverse` of the current value
+of object `i`, an edit changes the edited object only) — the latter is what the driver runs for the `hist3`/`hist2`
+kinds.  The theorems below say that the heap semantics *is* the value semantics, for every history. -/
+
+open M3d.Tf.Hist in
+/-- **`Inverse()` returns a fresh value that is the inverse of the receiver as it is now.**  Take *any* heap `h`
+(whatever history produced it) in which the object at address `a` denotes the transform `t` (nested joins
+included).  Then the Go method `Inverse()` succeeds, it only **appends** cells (`h ++ ext`: no existing cell — of
+the receiver, of an earlier result, of any cache — is written), and the object it returns denotes `t.inverse`
+reading appended cells only (`freshOf h`): the result shares no cell with the receiver or with anything else. -/
+theorem inverse_fresh (S : Nat → Bool) (n : Nat) (h : Heap K) (a : Nat) (t : Xf K)
+    (ht : readIn S n h a = some t) :
+    ∃ ext a', goInverse n h a = some (h ++ ext, a') ∧
+      readIn (freshOf h) n (h ++ ext) a' = some t.inverse :=
+  goInverse_spec S n h a t ht
+
+open M3d.Tf.Hist in
+/-- **Not aliased, in both directions.**  With `(h ++ ext, a')` the result of `Inverse()` as in `inverse_fresh`:
+(1) whatever is later stored into the cells of the result (or allocated after it) — any heap `h₂` that agrees with
+`h` on the old addresses — every object `b` that denoted `t'` before still denotes `t'` (editing the matrix of a
+returned inverse cannot reach the receiver, an earlier inverse, or a wrapper built earlier);
+(2) whatever is later stored into old cells — any `h₂` that agrees with `h ++ ext` on the new addresses — the
+result still denotes `t.inverse` (it is a value of its own, not a view of the receiver). -/
+theorem inverse_not_aliased (n : Nat) (h ext : Heap K) (a' : Nat) (u : Xf K)
+    (hres : readIn (freshOf h) n (h ++ ext) a' = some u) :
+    (∀ (S' : Nat → Bool) n' b t' (h₂ : Heap K), readIn S' n' h b = some t' →
+        (∀ c, c < h.length → h₂[c]? = h[c]?) → readIn S' n' h₂ b = some t') ∧
+    (∀ h₂ : Heap K, (∀ c, h.length ≤ c → h₂[c]? = (h ++ ext)[c]?) → readIn (freshOf h) n h₂ a' = some u) := by
+  constructor
+  · intro S' n' b t' h₂ hb hagree
+    refine readIn_transfer S' S' h h₂ ?_ n' b t' hb
+    intro c cell hS hc
+    exact ⟨hS, by rw [hagree c (lt_of_getElem?_some h c cell hc)]; exact hc⟩
+  · intro h₂ hagree
+    refine readIn_transfer (freshOf h) (freshOf h) (h ++ ext) h₂ ?_ n a' u hres
+    intro c cell hS hc
+    refine ⟨hS, ?_⟩
+    simp only [freshOf, decide_eq_true_eq] at hS
+    rw [hagree c hS]; exact hc
+
+open M3d.Tf.Hist in
+/-- **Inverse after any history = inverse of the current value.**  Run *any* history `ss` on the heap — any
+sequence of `Inverse()` calls, in-place stores into cells of any object (`Matrix.Scale`, `*Matrix = m`,
+`InvertInPlace`, field and slice stores, also into objects that were returned by `Inverse()`) and allocations —
+from separated objects.  In the state `σ` it ends in, if object `i` has the value `t` *now*, then `Inverse()` on it
+succeeds and the new object has the value `t.inverse`; the call changes the value of no existing object, and the
+objects stay separated (so the statement applies again after it). -/
+theorem inverse_after_history (ss : List (HeapStep K)) (σ₀ σ : HeapState K) (hsep : Sep σ₀)
+    (hrun : runHeap ss σ₀ = some σ) (i : Nat) (t : Xf K) (hv : σ.value i = some t) :
+    ∃ σ', (HeapStep.inv i).run σ = some σ' ∧ σ'.value σ.objs.length = some t.inverse ∧
+      (∀ j t', σ.value j = some t' → σ'.value j = some t') ∧ Sep σ' := by
+  have hs := run_sep ss σ₀ σ hsep hrun
+  obtain ⟨σ', hstep, _, hnew⟩ := inv_value σ i t hv
+  exact ⟨σ', hstep, hnew, fun j t' hj => step_frame _ σ σ' hs hstep j (by simp [HeapStep.target]) t' hj,
+    step_sep _ σ σ' hs hstep⟩
+
+open M3d.Tf.Hist in
+/-- **Edits are local.**  In any history on separated objects, the value of object `j` is unchanged by every step
+that is not an edit addressed to `j` itself: `Inverse()` calls on any object (on `j` too — `Inverse()` has no side
+effect on its receiver) and edits of other objects, in particular of the objects `j.Inverse()` returned. -/
+theorem history_edits_are_local (ss : List (HeapStep K)) (σ σ' : HeapState K) (hsep : Sep σ)
+    (hrun : runHeap ss σ = some σ') (j : Nat) (hj : ∀ s ∈ ss, s.target ≠ some j) (t : Xf K)
+    (hv : σ.value j = some t) : σ'.value j = some t ∧ Sep σ' :=
+  ⟨run_frame ss σ σ' hsep hrun j hj t hv, run_sep ss σ σ' hsep hrun⟩
+
+open M3d.Tf.Hist in
+/-- **The heap semantics is the value semantics** (flat objects).  Every history made of `Inverse()` calls (on
+any object, nested joins included), wrapper constructions and in-place edits of a struct of values or of the matrix
+behind a `Matrix3Transform` (`Offset =`, `Scale =`, `Matrix.Scale(s)`, `*Matrix = m`, `Matrix.InvertInPlace()`,
+`Matrix = &m`), carried out on the heap with pointers and allocation (`compileFlat`), ends in a heap state that
+represents exactly the state `runHistory` computes: object by object the same value.  This is the semantics the
+driver answers the `hist3` / `hist2` kinds with.  (Slice stores `j[k] = x` are covered by `inverse_after_history`
+and `history_edits_are_local`, not by this simulation.) -/
+theorem history_value_semantics (ss : List (HStep K)) (σ : HeapState K) (st st' : HState K) (hrep : Rep σ st)
+    (hrun : runHistory ss st = some st') (hflat : ∀ s ∈ ss, FlatStep s) :
+    ∃ hs σ', runHeap hs σ = some σ' ∧ Rep σ' st' :=
+  flat_history_sim ss σ st st' hrep hrun hflat
+
+open M3d.Tf.Hist in
+/-- **The property along a history.**  After any flat history (as in `history_value_semantics`) from a represented
+state, for every object `i` whose current value `t` is invertible (`t.Valid`): `Inverse()` called *now* on the heap
+yields an object whose value `u` undoes `t` in both orders, `u(t(p)) = p = t(u(p))` — `t` being the object as the
+edits have left it, not as it was when an inverse was last asked for. -/
+theorem history_roundtrip (ss : List (HStep K)) (σ : HeapState K) (st st' : HState K) (hrep : Rep σ st)
+    (hrun : runHistory ss st = some st') (hflat : ∀ s ∈ ss, FlatStep s) (i : Nat) (t : Xf K)
+    (hi : st'.objs[i]? = some t) (hv : t.Valid) :
+    ∃ hs σ₁ σ₂ u, runHeap hs σ = some σ₁ ∧ (HeapStep.inv i).run σ₁ = some σ₂ ∧
+      σ₂.value σ₁.objs.length = some u ∧ ∀ p, u.apply (t.apply p) = p ∧ t.apply (u.apply p) = p := by
+  obtain ⟨hs, σ₁, hr, hrep₁⟩ := flat_history_sim ss σ st st' hrep hrun hflat
+  obtain ⟨σ₂, hstep, _, hnew⟩ := inv_value σ₁ i t (hrep₁.2.2 i t hi)
+  exact ⟨hs, σ₁, σ₂, t.inverse, hr, hstep, hnew, fun p => ⟨Xf.inverse_apply t hv p, Xf.apply_inverse t hv p⟩⟩
+
+open M3d.Tf.Hist in
+/-- non-vacuity: for every matrix `m`, the two-cell heap `[Matrix3{m}, Matrix3Transform{Matrix: &cell 0}]` with one
+object represents the value state `[matrix m]` — the hypotheses `Sep` / `Rep` of the history theorems hold for the
+object `&Matrix3Transform{Matrix: &m}` every `hist3` history starts from. -/
+example (m : M3 K) :
+    Rep (⟨[.mat m, .mxf 0], [⟨1, fun b => decide (b < 2), 1⟩]⟩ : HeapState K) ⟨[.matrix m], []⟩ := by
+  refine ⟨⟨?_, ?_⟩, rfl, ?_⟩
+  · intro i j oi oj hi hj hij
+    have hi' : i = 0 := by
+      by_contra hne
+      rw [List.getElem?_eq_none (by simp; omega)] at hi; cases hi
+    have hj' : j = 0 := by
+      by_contra hne
+      rw [List.getElem?_eq_none (by simp; omega)] at hj; cases hj
+    omega
+  · intro i o hi b hb
+    have hi' : i = 0 := by
+      by_contra hne
+      rw [List.getElem?_eq_none (by simp; omega)] at hi; cases hi
+    subst hi'
+    simp only [List.getElem?_cons_zero, Option.some.injEq] at hi
+    subst hi
+    simpa using hb
+  · intro i t hi
+    have hi' : i = 0 := by
+      by_contra hne
+      rw [List.getElem?_eq_none (by simp; omega)] at hi; cases hi
+    subst hi'
+    simp only [List.getElem?_cons_zero, Option.some.injEq] at hi
+    subst hi
+    simp [HeapState.value, readIn]
+
+open M3d.Tf.Hist in
+/-- non-vacuity / the seeded scenario on the model, at `ℚ`: `xf := &Matrix3Transform{Matrix: &diag(1,1,1)}`;
+`inv := xf.Inverse()`; `xf.Matrix.Scale(2)`; `inv.Matrix.Scale(5)` (editing the returned inverse); `xf.Inverse()` —
+the second inverse is `diag(1/2,1/2,1/2)`, the inverse of the matrix as it is now, and `xf` still is `diag(2,2,2)`. -/
+example :
+    (runHeap [.inv 0, .store 0 0 (.mat (M3.one.scale 2)), .store 1 2 (.mat ((M3.one : M3 ℚ).inverse.scale 5)), .inv 0]
+        (⟨[.mat M3.one, .mxf 0], [⟨1, fun b => decide (b < 2), 1⟩]⟩ : HeapState ℚ)).map
+      (fun σ => (σ.value 0, σ.value 2)) =
+      some (some (.matrix ⟨2, 0, 0, 0, 2, 0, 0, 0, 2⟩), some (.matrix ⟨1/2, 0, 0, 0, 1/2, 0, 0, 0, 1/2⟩)) := by
+  norm_num [runHeap, HeapStep.run, goInverse, alloc, HeapState.value, readIn, M3.one, M3.scale, M3.inverse, M3.adj,
+    M3.det]
+
+
+/-! ### Histories, 2-D (`model2d`: the same template text; heap model `Hist2` generated from the 3-D one) -/
+
+open M3d.Tf.Hist2 in
+/-- 2-D **`Inverse()` returns a fresh value that is the inverse of the receiver as it is now** (`Matrix2Transform`,
+`Translate`, `Scale`, `VecScale`, the ortho wrapper, nested `JoinedTransform`s of `model2d`): only appended cells,
+result reads appended cells only. -/
+theorem inverse_fresh_2d (S : Nat → Bool) (n : Nat) (h : Heap K) (a : Nat) (t : Xf2 K)
+    (ht : readIn S n h a = some t) :
+    ∃ ext a', goInverse n h a = some (h ++ ext, a') ∧
+      readIn (freshOf h) n (h ++ ext) a' = some t.inverse :=
+  goInverse_spec S n h a t ht
+
+open M3d.Tf.Hist2 in
+/-- 2-D **inverse after any history = inverse of the current value**; `Inverse()` changes no existing object;
+separation is kept. -/
+theorem inverse_after_history_2d (ss : List (HeapStep K)) (σ₀ σ : HeapState K) (hsep : Sep σ₀)
+    (hrun : runHeap ss σ₀ = some σ) (i : Nat) (t : Xf2 K) (hv : σ.value i = some t) :
+    ∃ σ', (HeapStep.inv i).run σ = some σ' ∧ σ'.value σ.objs.length = some t.inverse ∧
+      (∀ j t', σ.value j = some t' → σ'.value j = some t') ∧ Sep σ' := by
+  have hs := run_sep ss σ₀ σ hsep hrun
+  obtain ⟨σ', hstep, _, hnew⟩ := inv_value σ i t hv
+  exact ⟨σ', hstep, hnew, fun j t' hj => step_frame _ σ σ' hs hstep j (by simp [HeapStep.target]) t' hj,
+    step_sep _ σ σ' hs hstep⟩
+
+open M3d.Tf.Hist2 in
+/-- 2-D **edits are local** (see `history_edits_are_local`). -/
+theorem history_edits_are_local_2d (ss : List (HeapStep K)) (σ σ' : HeapState K) (hsep : Sep σ)
+    (hrun : runHeap ss σ = some σ') (j : Nat) (hj : ∀ s ∈ ss, s.target ≠ some j) (t : Xf2 K)
+    (hv : σ.value j = some t) : σ'.value j = some t ∧ Sep σ' :=
+  ⟨run_frame ss σ σ' hsep hrun j hj t hv, run_sep ss σ σ' hsep hrun⟩
+
+open M3d.Tf.Hist2 in
+/-- 2-D **the heap semantics is the value semantics** for histories of `Inverse()` calls, wrapper constructions and
+flat edits (`runHistory2` is what the driver answers `hist2` with), and along such a history `Inverse()` called now
+undoes the object as it is now in both orders. -/
+theorem history_value_semantics_2d (ss : List (HStep2 K)) (σ : HeapState K) (st st' : HState2 K) (hrep : Rep σ st)
+    (hrun : runHistory2 ss st = some st') (hflat : ∀ s ∈ ss, FlatStep s) :
+    (∃ hs σ', runHeap hs σ = some σ' ∧ Rep σ' st') ∧
+    ∀ i t, st'.objs[i]? = some t → t.Valid →
+      ∃ hs σ₁ σ₂ u, runHeap hs σ = some σ₁ ∧ (HeapStep.inv i).run σ₁ = some σ₂ ∧
+        σ₂.value σ₁.objs.length = some u ∧ ∀ p, u.apply (t.apply p) = p ∧ t.apply (u.apply p) = p := by
+  obtain ⟨hs, σ₁, hr, hrep₁⟩ := flat_history_sim ss σ st st' hrep hrun hflat
+  refine ⟨⟨hs, σ₁, hr, hrep₁⟩, ?_⟩
+  intro i t hi hv
+  obtain ⟨σ₂, hstep, _, hnew⟩ := inv_value σ₁ i t (hrep₁.2.2 i t hi)
+  exact ⟨hs, σ₁, σ₂, t.inverse, hr, hstep, hnew, fun p => ⟨Xf2.inverse_apply t hv p, Xf2.apply_inverse t hv p⟩⟩
 
 /-! ## The 2-D instance (`model2d/transform.go`, `model2d/matrix.go`) — its own model `M3d/Model/Transform2.lean` -/
 
